@@ -20,7 +20,14 @@ Fixpoint check_sels (fuel : nat) (st : dstrategy) (items : list ritem) (sname : 
   | O => true
   | S f =>
       match struct_fields items sname with
-      | None => true                       (* alias / enum-only type: covered by the model correspondence *)
+      | None =>
+          (* alias / enum-only type: covered by the model correspondence; but a selection WITH fields
+             must stay something that accepts an object carrying them ("payloads that contain the
+             field still deserialize"): a unit struct only takes null *)
+          match find_item sname items with
+          | Some (IUnit _ _ _) => negb (existsb (fun x => match x with RField _ _ _ => true | _ => false end) l)
+          | _ => true
+          end
       | Some fs =>
           forallb (fun x =>
             match x with
